@@ -384,5 +384,5 @@ void bad_argument (svalue_t * val, int type, int arg, int instr) {
   strncpy (msg, outbuf.buffer, sizeof(msg)-1);
   FREE_MSTR (outbuf.buffer);
 
-  error (msg);
+  error ("%s", msg);	/* msg contains the rendered value: data, not a format */
 }
